@@ -152,7 +152,7 @@ class LoopGen:
                         # freed in both branches of a conditional
                         out.append({"k": "if", "a": r.choice(ivs), "b": r.choice(["%c1", "%c2"]), "then": [{"k": "dealloc", "buf": nm}], "else": [{"k": "dealloc", "buf": nm}]})
                     elif how == "cast":
-                        out.append({"k": "dealloc", "buf": nm, "cast": True})  # freed through a memref.cast of it
+                        out.append({"k": "dealloc", "buf": nm, "cast": r.choice([1, 1, 2, 3])})  # freed through a (chain of) memref.cast of it
                     else:
                         out.append({"k": "dealloc", "buf": nm})  # the buffer is freed again in the same body
                 bufs = bufs + [nm]
@@ -253,9 +253,12 @@ def emit(ast) -> str:
                 e(ind, f'"test.op"(%rr{n_}) {{vtag = {t_ - 3} : i64}} : ({TB}) -> ()')
                 e(ind, f"memref.dealloc %rr{n_} : {TB}")
             elif k == "dealloc" and s.get("cast"):
-                cnt[0] += 1
-                e(ind, f'%dc{cnt[0]} = "memref.cast"({s["buf"]}) : ({TB}) -> {TB}')
-                e(ind, f"memref.dealloc %dc{cnt[0]} : {TB}")
+                prev = s["buf"]
+                for _ in range(int(s["cast"])):
+                    cnt[0] += 1
+                    e(ind, f'%dc{cnt[0]} = "memref.cast"({prev}) : ({TB}) -> {TB}')
+                    prev = f"%dc{cnt[0]}"
+                e(ind, f"memref.dealloc {prev} : {TB}")
             elif k == "dealloc":
                 e(ind, f'memref.dealloc {s["buf"]} : {TB}')
             elif k == "dim":
